@@ -107,9 +107,15 @@ def select_semantics(prog, res):
         for b, i, s in g.all_stmts():
             for c in ir.calls_in(s):
                 if (c.get("fn") or "").startswith("std::vector<") and (c.get("fn") or "").endswith("::operator[]"):
-                    bad.append((g, s))
+                    # only an index that comes from outside (a parameter or a
+                    # field of one) needs the checked accessor; a loop counter
+                    # bounded by size() does not
+                    idx = c["args"][-1] if c.get("args") else None
+                    external = any((y.get("k") == "var" and "p" in y) for y in ir.walk(idx))
+                    if external:
+                        bad.append((g, s))
     if not bad:
-        res.oblige(R, "containers indexed through at()", True, "no operator[] on a vector in device.manager.cpp", f.file)
+        res.oblige(R, "containers indexed through at()", True, "no operator[] with an externally supplied index in device.manager.cpp", f.file)
     for g, s in bad:
         res.fail(R, "containers indexed through at()", "R-SELECT|operator[]|%s" % g.name, g.loc(s),
                  "%s indexes a vector with operator[]: an out-of-range index is undefined behaviour instead of an error" % g.name)
